@@ -396,6 +396,18 @@ def _is_trivial_arg(e):
     return False
 
 
+def _immutable_default(d):
+    if isinstance(d, ast.Constant):
+        return True
+    if isinstance(d, (ast.Name, ast.Attribute)):
+        return True
+    if isinstance(d, ast.UnaryOp):
+        return _immutable_default(d.operand)
+    if isinstance(d, ast.Tuple):
+        return all(_immutable_default(x) for x in d.elts)
+    return False
+
+
 def _bind_args(fn, call, deco, recv):
     """-> ordered list of (param, argument expression) or raises"""
     a = fn.args
@@ -427,6 +439,10 @@ def _bind_args(fn, call, deco, recv):
         if n in got:
             bound.append((n, got[n]))
         elif n in defaults:
+            # a default is evaluated once, at definition time: only a value that cannot carry state from call to call (a constant, a
+            # name) may be written into the call site; a [] / {} / call default is one object shared by all calls
+            if not _immutable_default(defaults[n]):
+                raise NotInlinable('mutable default')
             bound.append((n, defaults[n]))
         else:
             raise NotInlinable('missing argument')
